@@ -126,3 +126,12 @@ claim("C17",
       "coordinates, isometry, origin->0 and the orthogonal-transpose relation of the local-level matrices are compared with the "
       "specification's rationals.",
       "TLA+ FrameGraph + TLC path enumeration + replay of identity paths, exact rational rotation", "DESIGN.md section 5, C17")
+claim("C16",
+      "Ellipsoid.tla carries the level ellipsoid in reduced exact rationals: the defining identities of b, e^2, e'^2, polar curvature "
+      "radius and mean radius, the Somigliana coefficients at Pythagorean latitudes and the rotating-sphere limit, which TLC shows "
+      "to satisfy Pizzetti's theorem exactly, over the emitted parameter grid; the harness scales every parameter set to three "
+      "unit decades and two gravity scales, mirrors the rationals with Fractions for flattenings beyond 32 bits (1e-6 .. 1/298.257 "
+      ".. 1/5) and checks derived constants (1e-12), Pizzetti's residual, Somigliana at 10 latitudes, positivity, symmetry, end "
+      "points, decrease with height to 0.5 % of a, closeness to and continuity with the rotating sphere for f <= 1e-4 and f = 0, "
+      "and the shipped planets.",
+      "TLA+ Ellipsoid (exact rationals) + TLC + relational replay", "DESIGN.md section 5, C16")
